@@ -886,3 +886,52 @@ def check_c14(ctx):
 
 
 CHECKS["C14"] = check_c14
+
+
+# ------------------------------------------------------------------ implementation-shaped CLHT specification (exhaustive, per family)
+
+import clht  # noqa: E402
+
+CLHT_QUICK = {
+    "C03": [("Map", "S1-slot-reuse"), ("Map", "S9-delete-insert"), ("Map", "S7-clear-vs-grow")],
+    "C04": [("MapOf", "S1-slot-reuse"), ("MapOf", "S4-grow"), ("MapOf", "S9-delete-insert")],
+    "C05": [("MapOf", "S10-racers"), ("Map", "S12-compute-chain")],
+    "C08": [("MapOf", "S7-clear-vs-grow"), ("MapOf", "S5-shrink")],
+    "C11": [("MapOf", "S13-compute-delete-absent"), ("Map", "S13-compute-delete-absent"), ("Map", "S3-append")],
+    "C13": [("MapOf", "S7-clear-vs-grow"), ("Map", "S5-shrink")],
+}
+
+
+def clht_models(ctx, prop):
+    """Exhaustive TLC runs of CLHT.tla (code-shaped) for the scenario families relevant to `prop`:
+    annotation-free linearizability at terminal states, no duplicate keys, locks released, user-function counts,
+    TLC deadlock check."""
+    if ctx.thorough:
+        variants = {"C03": ["Map"], "C04": ["MapOf"]}.get(prop, ["Map", "MapOf"])
+        sel = [(v, n) for v in variants for n in clht.families()]
+    else:
+        sel = CLHT_QUICK.get(prop, [])
+    for (variant, name) in sel:
+        r = clht.run_family(name, variant, timeout=7200)
+        if r["violated"]:
+            raise Inconclusive("TLC reports %s in CLHT family %s/%s with the code's design switches: the specification misrepresents the code or the design is broken; "
+                               "not a verdict about the code (real-code histories decide)\n%s" % (r["violated"], name, variant, r["out"][-2500:]))
+        ctx.add_model("CLHT/%s/%s" % (variant, name), r)
+    mpath = os.path.join(lib.SPECS, "switch_matrix.json")
+    if os.path.exists(mpath):
+        m = json.load(open(mpath))
+        ctx.cov["design_switches"] = {"refuted": sorted(k for k, v in m.items() if v["refuted_by"]), "not_discriminated": sorted(k for k, v in m.items() if not v["refuted_by"])}
+
+
+_orig_c03, _orig_c04, _orig_c05, _orig_c08, _orig_c11, _orig_c13 = check_c03, check_c04, check_c05, check_c08, check_c11, check_c13
+
+
+def _with_clht(pid, fn):
+    def run(ctx):
+        clht_models(ctx, pid)
+        fn(ctx)
+    return run
+
+
+for _pid, _fn in (("C03", _orig_c03), ("C04", _orig_c04), ("C05", _orig_c05), ("C08", _orig_c08), ("C11", _orig_c11), ("C13", _orig_c13)):
+    CHECKS[_pid] = _with_clht(_pid, _fn)
